@@ -71,22 +71,23 @@ func (c07) Info(tier string) fw.Info {
 }
 
 type payload struct {
-	G       string        `json:"g"`
-	Seed    uint64        `json:"seed,omitempty"`
-	Op1     string        `json:"op1,omitempty"`
-	Op2     string        `json:"op2,omitempty"`
-	N       int           `json:"n,omitempty"`
-	K       int           `json:"k,omitempty"`
-	Depth   int           `json:"depth,omitempty"`
-	Tabs    bool          `json:"tabs,omitempty"`
-	Tight   bool          `json:"tight,omitempty"`
-	KeepLHS bool          `json:"keep_lhs,omitempty"`
-	Name    string        `json:"name,omitempty"`
-	Src     string        `json:"src,omitempty"`
-	Alt     string        `json:"alt,omitempty"`
-	Srcs    []string      `json:"srcs,omitempty"`
-	Want    *exprgen.Node `json:"want,omitempty"`
-	Ctx     string        `json:"ctx,omitempty"`
+	G        string        `json:"g"`
+	Seed     uint64        `json:"seed,omitempty"`
+	Op1      string        `json:"op1,omitempty"`
+	Op2      string        `json:"op2,omitempty"`
+	N        int           `json:"n,omitempty"`
+	K        int           `json:"k,omitempty"`
+	Depth    int           `json:"depth,omitempty"`
+	Tabs     bool          `json:"tabs,omitempty"`
+	Tight    bool          `json:"tight,omitempty"`
+	KeepLHS  bool          `json:"keep_lhs,omitempty"`
+	ForceLHS bool          `json:"force_lhs,omitempty"`
+	Name     string        `json:"name,omitempty"`
+	Src      string        `json:"src,omitempty"`
+	Alt      string        `json:"alt,omitempty"`
+	Srcs     []string      `json:"srcs,omitempty"`
+	Want     *exprgen.Node `json:"want,omitempty"`
+	Ctx      string        `json:"ctx,omitempty"`
 }
 
 // lexerAcceptsTab observes the real lexer on a tab (pure function of the code under test).
@@ -123,7 +124,10 @@ func (c07) Cases(tier string, seed uint64) []fw.Case {
 	r := fw.NewRng(seed ^ 0xC07C07)
 	thorough := tier == "thorough"
 	tabs := !fw.KFOpen(kfLexerTab) && lexerAcceptsTab()
-	keepLHS := fw.KFOpen(kfParenTarget)
+	// Redundant parentheses around assignment targets are confined to the always-on, tagged
+	// workload `parenlhs` (finding KF-paren-assign-target), so that this one defect cannot flood
+	// the other workloads whether or not it is listed.
+	keepLHS := true
 	// tight renderings of | || |= & && &= join the main workloads only once the lexer is observed
 	// to handle them and the finding is not open; the tagged workload `tight` always has them
 	tightMain := !fw.KFOpen(kfLexerOrAnd) && lexerTightOrAndOK()
@@ -202,7 +206,7 @@ func (c07) Cases(tier string, seed uint64) []fw.Case {
 	}
 	// (8) tight renderings of | || |= & && &= (poisoned while the lexer defect is open)
 	nt := 48
-	if !fw.KFOpen(kfLexerOrAnd) && thorough {
+	if tightMain && thorough {
 		nt = 400
 	}
 	for i := 0; i < nt; i++ {
@@ -211,6 +215,13 @@ func (c07) Cases(tier string, seed uint64) []fw.Case {
 	// (9) parenthesised assignment targets
 	for _, a := range exprgen.AssignOps {
 		add("parenlhs", payload{Op1: a, Seed: r.Next(), K: 2}, tagParenTarget)
+	}
+	np := 36
+	if thorough && !fw.KFOpen(kfParenTarget) {
+		np = 300
+	}
+	for i := 0; i < np; i++ {
+		add("parenlhs", payload{Seed: r.Next(), N: 8, Depth: 2 + i%4, K: 3, ForceLHS: true}, tagParenTarget)
 	}
 	return cases
 }
@@ -260,6 +271,9 @@ func (w *work) variants(want *exprgen.Node, ctx *context, k int) []variant {
 		if j > 4 {
 			mode = 1 + w.r.Intn(4)
 		}
+		if w.p.ForceLHS {
+			mode = 2
+		}
 		switch mode {
 		case 1:
 			vs = append(vs, variant{src: w.layout(full, exprgen.StyleTight), kind: "layout-tight"})
@@ -272,7 +286,7 @@ func (w *work) variants(want *exprgen.Node, ctx *context, k int) []variant {
 			}
 			vs = append(vs, variant{src: w.layout(full, st), kind: "layout-" + styleNames[st]})
 		default:
-			po := &exprgen.PrintOpts{R: w.r, AtomParens: 25, NodeParens: 20, TrailComma: 50, KeepAssignLHS: w.p.KeepLHS, AltQuotes: true}
+			po := &exprgen.PrintOpts{R: w.r, AtomParens: 25, NodeParens: 20, TrailComma: 50, KeepAssignLHS: w.p.KeepLHS, ForceAssignLHS: w.p.ForceLHS, AltQuotes: true}
 			toks := exprgen.Tokens(want, po)
 			kind := "tokens"
 			switch {
@@ -440,6 +454,30 @@ func (c07) Run(c fw.Case) (res fw.Result) {
 			w.a.judgeExpr(c.Kind, t, ctx, w.variants(t, ctx, p.K))
 		}
 	case "parenlhs":
+		if p.N > 0 {
+			// random trees with an assignment at the root or below, targets always parenthesised
+			g := &exprgen.GenOpts{R: w.r, MaxDepth: p.Depth}
+			for i := 0; i < p.N; i++ {
+				t := exprgen.Bin(fw.Pick(w.r, exprgen.AssignOps), assignTarget(w.r), exprgen.RandomTree(g))
+				if w.r.Intn(3) == 0 {
+					t = exprgen.Bin(fw.Pick(w.r, exprgen.InfixOps), exprgen.RandomTree(g), t)
+				}
+				if !w.selfCheckTree(t) {
+					break
+				}
+				ctx := w.pickCtx()
+				vs := w.variants(t, ctx, p.K)
+				// keep the base and the renderings that really parenthesise a target
+				keep := vs[:1]
+				for _, v := range vs[1:] {
+					if strings.HasPrefix(v.kind, "paren-assign-lhs") {
+						keep = append(keep, v)
+					}
+				}
+				w.a.judgeExpr("parenlhs", t, ctx, keep)
+			}
+			break
+		}
 		for _, tgt := range [][]string{split("a"), split("a [ 0 ]"), split("a . m"), split("a . m [ i ] . n")} {
 			plainToks := join(tgt, []string{p.Op1, "b", "+", "1"})
 			want, err := exprgen.RefParse(plainToks)
@@ -484,6 +522,19 @@ func (c07) Run(c fw.Case) (res fw.Result) {
 		res.Sample = map[string]any{"workload": c.Kind, "params": strings.TrimSpace(p.Op1 + " " + p.Op2 + " " + p.Name), "sources_parsed": w.a.obs["sources_parsed"], "example": w.a.example}
 	}
 	return res
+}
+
+func assignTarget(r *fw.Rng) *exprgen.Node {
+	t := exprgen.Id(fw.Pick(r, []string{"a", "x", "foo"}))
+	switch r.Intn(4) {
+	case 0:
+		return exprgen.Index(t, exprgen.Int(int64(r.Intn(3))))
+	case 1:
+		return exprgen.Member(t, "m")
+	case 2:
+		return exprgen.Member(exprgen.Index(t, exprgen.Id("i")), "n")
+	}
+	return t
 }
 
 // tightTree builds a small tree that contains at least one of | || |= & && &=.
